@@ -18,6 +18,10 @@ pub struct Case {
   pub transport: Transport,
   pub rt: Rt,
   pub cuts: Vec<CutSpec>,
+  /// the peer shuts its write side immediately behind the last byte (the FIN sits in the same
+  /// burst as the data): everything before it still has to be delivered
+  #[serde(default)]
+  pub eof_behind_data: bool,
 }
 
 fn case_strategy() -> impl Strategy<Value = Case> + Clone {
@@ -32,12 +36,14 @@ fn case_strategy() -> impl Strategy<Value = Case> + Clone {
     prop::sample::select(vec![Transport::Tcp, Transport::Ipc]),
     prop::sample::select(vec![Rt::Current, Rt::Multi(2)]),
     prop::collection::vec(cut, 0..2),
+    prop::bool::weighted(0.3),
   )
-    .prop_map(|(proto, local_server, (lt, pt), msgs, transport, rt, cuts)| Case {
+    .prop_map(|(proto, local_server, (lt, pt), msgs, transport, rt, cuts, eof_behind_data)| Case {
       t: Transcript { proto, local_server, local_type: lt.into(), peer_type: pt.into(), peer_identity: vec![], msgs },
       transport,
       rt,
       cuts,
+      eof_behind_data,
     })
 }
 
@@ -108,11 +114,16 @@ async fn body(c: &Case) -> L2 {
       }
     }
   }
-  tokio::time::sleep(Duration::from_millis(120)).await;
+  if !c.eof_behind_data {
+    tokio::time::sleep(Duration::from_millis(120)).await;
+  }
   let mut sentinel = Vec::new();
   wire::encode_frame(&wire::RefFrame::data(SENTINEL.to_vec(), false), &mut sentinel);
   if raw.write_all(&sentinel).await.is_err() {
     return L2::Inconclusive("raw write (sentinel) failed".into());
+  }
+  if c.eof_behind_data {
+    raw.shutdown_write().await;
   }
 
   // Receive until the sentinel.
@@ -134,6 +145,12 @@ async fn body(c: &Case) -> L2 {
     }
   };
   let verdict = match result {
+    Err(e) if c.eof_behind_data => L2::Violation(
+      Violation::new("data_before_eof_lost", format!("{:?} {} {}: the peer wrote {} messages and a sentinel and then shut its write side; the application received {} messages and then {} - bytes that arrived before the FIN were dropped", c.t.proto, c.transport.name(), c.t.local_type, want.len(), got.len(), e))
+        .with("layer", "stack")
+        .with("proto", format!("{:?}", c.t.proto))
+        .with("transport", c.transport.name()),
+    ),
     Err(e) => L2::Inconclusive(format!("sentinel never arrived: {} (got {} of {} messages)", e, got.len(), want.len())),
     Ok(()) => {
       if got != want {
@@ -172,7 +189,8 @@ fn prop_case(run: &Run, c: &Case, rec: &mut CaseRec) -> Result<(), Violation> {
   let (hs, data) = c.t.bytes();
   let cuts = resolve(&c.cuts, hs.len() + data.len(), hs.len());
   let shares = !cuts.contains(&hs.len());
-  rec.nontrivial = shares;
+  rec.nontrivial = shares || c.eof_behind_data;
+  rec.label_if(c.eof_behind_data, "eof_behind_data");
   rec.label_if(shares, "data_in_same_write_as_handshake_end");
   rec.label(c.transport.name());
   rec.label(if c.t.local_server { "listener" } else { "connector" });
